@@ -4,7 +4,7 @@ socket.connect), as the repository's own tests do."""
 from unittest import mock
 
 
-def run_script(stream, script, sel, max_extra=None, writes=None):
+def run_script(stream, script, sel, max_extra=None, writes=None, dev=None):
     """stream: bytes; script: list of int (chunk size) | "again" | "eof";
     sel: list of bool answers of selector.select(). After the script is used
     up the peer hands out what is left (<=256 per read) and then EOF.
@@ -40,7 +40,9 @@ def run_script(stream, script, sel, max_extra=None, writes=None):
         state["sel"] += 1
         return [("ready", 1)] if (j < len(sel) and sel[j]) else []
 
-    dev = device.Device()
+    # dev: a Device that served an earlier connection already (added after seed C17i: an end-of-stream flag that survived the
+    # reconnect); a connection's lines are its own stream's, whatever the object read before
+    dev = dev if dev is not None else device.Device()
     events = []
     writes = list(writes or [])
     with mock.patch("socket.socket.connect"), mock.patch("socket.SocketIO.read", side_effect=fake_read), \
@@ -76,3 +78,16 @@ def run_script(stream, script, sel, max_extra=None, writes=None):
             pass
     return {"meta": {"script": [str(x) for x in script], "sel": [bool(x) for x in sel], "writes": [bool(x) for x in writes]},
             "stream": list(stream), "ev": events}
+
+
+def run_sessions(sessions):
+    """Several connections, one after the other, through ONE Device object. sessions: list of (stream, script, sel).
+    Returns one trace per connection."""
+    from gscrib.printrun import device
+    dev = device.Device()
+    out = []
+    for stream, script, sel in sessions:
+        t = run_script(stream, script, sel, dev=dev)
+        t["meta"]["session"] = len(out) + 1
+        out.append(t)
+    return out
